@@ -54,6 +54,32 @@ Theorem C17_delivery_reentrant : forall pre k m h' post s evs,
   nth_error evs (count_inbound pre) = Some (Deliver k m (last_handle pre)).
 Proof. exact delivery_reentrant. Qed.
 
+(* QoS 2 with PUBLISH and PUBREL as separate steps: "all times at which Handle is called" includes the
+   time between them — the hand-over happens at the PUBREL and goes to the handler registered then
+   (first registration after the PUBLISH, or a replacement) *)
+Theorem C17_delivery_q2_at_release : forall pre k m post s evs,
+  run (pre ++ B_q2_release k m :: post) = Next s evs ->
+  current_of pre = Some k ->
+  nth_error evs (count_inbound pre) = Some (Deliver k m (last_handle pre)).
+Proof. exact delivery_q2. Qed.
+
+(* "messages arriving right after each CONNACK" includes the broker's retransmissions for a resumed
+   session: a QoS 2 PUBLISH processed on a connection, DUP=1 or not, is released by the PUBREL that
+   follows it, although the new connection object has never seen the first copy *)
+Theorem C17_q2_redelivery_released : forall ls k m d s evs,
+  run (ls ++ [B_q2_publish k m d]) = Next s evs ->
+  exists s', run (ls ++ [B_q2_publish k m d; B_q2_release k m]) = Next s'
+                 (evs ++ [Deliver k m (entitled (hist_of ls) k)]).
+Proof. exact q2_publish_then_release. Qed.
+
+(* scope (and a finding about /repo, see notes/C17.md): the store of received QoS 2 messages is a
+   local of serve(), i.e. it belongs to ONE connection object. If the connection is cut after the
+   PUBREC reached the broker, the broker resends only the PUBREL on the next connection; there the
+   release is not enabled: no hand-over (and no PUBCOMP) ever happens for that message *)
+Theorem C17_q2_pending_not_carried_over :
+  run (U_handle (Some 1) :: conn 0 ++ [B_q2_publish 0 7 false; R_end 0] ++ conn 1 ++ [B_q2_release 1 7]) = Disabled.
+Proof. exact q2_pending_not_carried_over. Qed.
+
 (* ... and it never blocks the reader or the RetryClient: no schedule of the model deadlocks
    (the reader does not hold its client's lock while the handler runs) *)
 Theorem C17_no_deadlock : forall ls, run ls <> Deadlocked.
@@ -112,21 +138,23 @@ Proof. exact stale_on_replaced_connection. Qed.
 
 (* the model distinguishes the implementation from its realistic breakages *)
 Theorem C17_breakages_refuted :
-  (exists ls, breaks {| i_store := StoreAlways; i_forward := true; i_install := InstallNever; i_setclient_clears := false; i_lock_through_callback := false |} ls) /\
-  (exists ls, breaks {| i_store := StoreAlways; i_forward := true; i_install := InstallAfterReturn; i_setclient_clears := false; i_lock_through_callback := false |} ls) /\
-  (exists ls, breaks {| i_store := StoreAlways; i_forward := true; i_install := InstallFirstOnly; i_setclient_clears := false; i_lock_through_callback := false |} ls) /\
-  (exists ls, breaks {| i_store := StoreAlways; i_forward := false; i_install := InstallAtBegin; i_setclient_clears := false; i_lock_through_callback := false |} ls) /\
-  (exists ls, breaks {| i_store := StoreIfNoClient; i_forward := true; i_install := InstallAtBegin; i_setclient_clears := false; i_lock_through_callback := false |} ls) /\
-  (exists ls, breaks {| i_store := StoreNever; i_forward := true; i_install := InstallAtBegin; i_setclient_clears := false; i_lock_through_callback := false |} ls) /\
-  (exists ls, breaks {| i_store := StoreAlways; i_forward := true; i_install := InstallAtBegin; i_setclient_clears := true; i_lock_through_callback := false |} ls) /\
+  (exists ls, breaks v_no_install ls) /\
+  (exists ls, breaks v_late_install ls) /\
+  (exists ls, breaks v_first_only ls) /\
+  (exists ls, breaks v_no_forward ls) /\
+  (exists ls, breaks v_store_if_no_client ls) /\
+  (exists ls, breaks v_no_store ls) /\
+  (exists ls, breaks v_setclient_clears ls) /\
   (exists ls, (exists s evs, run_loop ls = Next s evs) /\
-              run_gen {| i_store := StoreAlways; i_forward := true; i_install := InstallAtBegin;
-                         i_setclient_clears := false; i_lock_through_callback := true |} ls = Deadlocked) /\
+              run_gen v_lock_through_callback ls = Deadlocked) /\
+  (exists ls, (exists s evs, run_loop ls = Next s evs) /\ run_gen v_q2_dup_not_stored ls = Disabled) /\
+  (exists ls, breaks v_q2_handler_at_publish ls) /\
   (forall ls, ~ breaks faithful ls).
 Proof.
   repeat split; [exact no_install_refuted|exact late_install_refuted|exact first_only_refuted|
                  exact no_forward_refuted|exact store_if_no_client_refuted|exact no_store_refuted|
-                 exact setclient_clears_refuted|exact lock_through_callback_refuted|exact faithful_not_broken].
+                 exact setclient_clears_refuted|exact lock_through_callback_refuted|exact q2_dup_not_stored_refuted|
+                 exact q2_handler_at_publish_refuted|exact faithful_not_broken].
 Qed.
 
 Print Assumptions C17_handler_installed.
@@ -134,6 +162,9 @@ Print Assumptions C17_handle_forwards.
 Print Assumptions C17_invariant.
 Print Assumptions C17_delivery.
 Print Assumptions C17_delivery_reentrant.
+Print Assumptions C17_delivery_q2_at_release.
+Print Assumptions C17_q2_redelivery_released.
+Print Assumptions C17_q2_pending_not_carried_over.
 Print Assumptions C17_no_deadlock.
 Print Assumptions C17_delivery_every_connection.
 Print Assumptions C17_delivery_every.
